@@ -666,8 +666,8 @@ def check_distance(case, ctx):
     err = np.abs(Drad - ref_arc_f)
     ctx.check(np.all(err <= tol), "gcd/reference", lambda: (
         "%s: arc differs from the long-double reference by %.3e rad "
-        "(tolerance %.3e)" % (info(), float(np.max(err - tol) + np.max(tol)),
-                              float(np.max(tol)))))
+        "(tolerance %.3e)" % (info(), float(err.flat[int(np.argmax(err - tol))]),
+                              float(tol.flat[int(np.argmax(err - tol))]))))
     # triangle inequality  d(i,k) <= d(i,j) + d(j,k)
     lhs = Drad[:, None, :]
     rhs = Drad[:, :, None] + Drad[None, :, :]
@@ -803,11 +803,11 @@ def distance_cases(draw):
 def suites(tier):
     return [
         Suite("convert", check_convert, strategy=convert_cases(),
-              examples={"quick": 1500, "thorough": 25000}),
+              examples={"quick": 1500, "thorough": 12000}),
         Suite("special-grid", check_convert, cases=special_grid_cases,
               exhaustive=True),
         Suite("los", check_los, strategy=los_cases(),
-              examples={"quick": 1200, "thorough": 20000}),
+              examples={"quick": 1200, "thorough": 10000}),
         Suite("distance", check_distance, strategy=distance_cases(),
-              examples={"quick": 1200, "thorough": 20000}),
+              examples={"quick": 1200, "thorough": 10000}),
     ]
